@@ -316,15 +316,23 @@ Definition check_finder (c : finder_case) : bool :=
              && list_eqb pair_str_eqb (finder_list_all cfg locs) listed) obs.
 
 (* dev server and collectstatic on one layout:
-   (locations, [(config, [(request path, observed answer)], files collectstatic copies as (source location, path))]) *)
+   (locations, [(config, [(request path, observed answer)], source paths `collectstatic --dry-run` pretends to copy)]);
+   the copies are compared as a multiset of absolute source paths (the command prints nothing else) *)
+Definition collected_paths (c : config) (locs : list location) : list str :=
+  map (fun rf : str * str => fst rf ++ SLASH :: snd rf) (collected c locs).
+
+Definition count_str (x : str) (l : list str) : nat := length (filter (str_eqb x) l).
+Definition same_multiset (a b : list str) : bool :=
+  Nat.eqb (length a) (length b) && forallb (fun x => Nat.eqb (count_str x a) (count_str x b)) a.
+
 Definition served_case :=
-  (list location * list (config * list (str * sres) * list (str * str)))%type.
+  (list location * list (config * list (str * sres) * list str))%type.
 Definition check_served (c : served_case) : bool :=
   let '(locs, obs) := c in
-  forallb (fun o : config * list (str * sres) * list (str * str) =>
+  forallb (fun o : config * list (str * sres) * list str =>
              let '(cfg, reqs, coll) := o in
              forallb (fun r : str * sres => sres_eqb (serve cfg locs (fst r)) (snd r)) reqs
-             && list_eqb pair_str_eqb (collected cfg locs) coll) obs.
+             && same_multiset (collected_paths cfg locs) coll) obs.
 
 (* _is_path_valid on plain strings: (config, [(name, observed)]) *)
 Definition valid_case := (config * list (str * bool))%type.
